@@ -235,7 +235,7 @@ theorem linearCol_add' {n : Nat} (m : Nat) (W : List (List (Nat × R))) (u v : V
   simpa using key 0 0
 
 /-- a weighted sum of elements (sum, cumsum, mean, diff, ediff1d along any axis) is an additive map on columns -/
-def linearColHom {n : Nat} (m : Nat) (W : List (List (Nat × R))) : Vec R n →+ Vec R m where
+def linearColHomCP {n : Nat} (m : Nat) (W : List (List (Nat × R))) : Vec R n →+ Vec R m where
   toFun := linearCol m W
   map_zero' := linearCol_zero m W
   map_add' := linearCol_add' m W
@@ -244,7 +244,7 @@ def linearColHom {n : Nat} (m : Nat) (W : List (List (Nat × R))) : Vec R n →+
 theorem toNumpy_linearOp (rc rn : Bool) (a : Arr R) (c : Vec R (size a.shape)) (hw : a.WF)
     (h : toNumpy a.poly = some c) (outShape : List Nat) (W : List (List (Nat × R))) :
     toNumpy (linearOp rc rn a outShape W).poly = some (linearCol (size outShape) W c) :=
-  toNumpy_clean_mapCoef_add (linearColHom (size outShape) W) rc rn a.poly c hw h
+  toNumpy_clean_mapCoef_add (linearColHomCP (size outShape) W) rc rn a.poly c hw h
 end maps
 
 /-! ### 4. product and bilinear patterns -/
@@ -500,19 +500,19 @@ end compareArr
 section aligned
 variable {S : Type} [CommSemiring S]
 
-theorem expos_alignPair_snd (a b : Poly S) :
+theorem expos_alignPair_snd_cp (a b : Poly S) :
     (alignPair a b).2.expos = sortDedup expoLt ((alignIndet (commonNames a b) a).expos ++
       (alignIndet (commonNames a b) b).expos) := expos_alignExpo _ _
 
-theorem WF_alignPair_snd (a b : Poly S) (ha : WF a) (hb : WF b) : WF (alignPair a b).2 := by
+theorem WF_alignPair_snd_cp (a b : Poly S) (ha : WF a) (hb : WF b) : WF (alignPair a b).2 := by
   have h1 := WF_alignPair_fst a b ha hb
   refine ⟨h1.names_nodup, ?_, ?_⟩
-  · rw [expos_alignPair_snd, ← expos_alignPair_fst]; exact h1.expos_nodup
+  · rw [expos_alignPair_snd_cp, ← expos_alignPair_fst]; exact h1.expos_nodup
   · intro e he
-    rw [expos_alignPair_snd, ← expos_alignPair_fst] at he
+    rw [expos_alignPair_snd_cp, ← expos_alignPair_fst] at he
     exact h1.row_len e he
 
-theorem den_alignPair_snd (a b : Poly S) (_ha : WF a) (hb : WF b) : den (alignPair a b).2 = den b := by
+theorem den_alignPair_snd_cp (a b : Poly S) (_ha : WF a) (hb : WF b) : den (alignPair a b).2 = den b := by
   have hc := commonNames_nodup a b
   have hsb : ∀ n ∈ b.names, n ∈ commonNames a b := fun n h => (mem_commonNames a b n).2 (Or.inr h)
   have wb := WF_alignIndet (commonNames a b) b hb hc hsb
@@ -564,13 +564,13 @@ theorem compareArr_const (lt : R → R → Bool) (op : CmpOp) (graded reverse : 
     (ca cb : Vec R n) (ha : WF a) (hb : WF b) (h1 : toNumpy a = some ca) (h2 : toNumpy b = some cb) (i : Fin n) :
     (compareArr lt op graded reverse a b).get i = op.rel lt (ca.get i) (cb.get i) := by
   have w1 := WF_alignPair_fst a b ha hb
-  have w2 := WF_alignPair_snd a b ha hb
+  have w2 := WF_alignPair_snd_cp a b ha hb
   have c1 := constRowsOf_toNumpy _ ca w1
     (toNumpy_of_den_C _ _ w1 (by rw [den_alignPair_fst a b ha hb, toNumpy_den a ca ha h1]))
   have c2 := constRowsOf_toNumpy _ cb w2
-    (toNumpy_of_den_C _ _ w2 (by rw [den_alignPair_snd a b ha hb, toNumpy_den b cb hb h2]))
+    (toNumpy_of_den_C _ _ w2 (by rw [den_alignPair_snd_cp a b ha hb, toNumpy_den b cb hb h2]))
   have hE : (alignPair a b).1.expos = (alignPair a b).2.expos := by
-    rw [expos_alignPair_fst, expos_alignPair_snd]
+    rw [expos_alignPair_fst, expos_alignPair_snd_cp]
   simp only [compareArr, Vec.get_ofFn]
   exact cmpWalk_const _ _ ca cb c1 c2 hE (alignPair_head a b ha hb) _ (op.rel lt) i
 
@@ -579,13 +579,13 @@ theorem equalArr_const (a b : Poly (Vec R n)) (ca cb : Vec R n) (ha : WF a) (hb 
     (h1 : toNumpy a = some ca) (h2 : toNumpy b = some cb) (i : Fin n) :
     (equalArr a b).get i = (ca.get i == cb.get i) := by
   have w1 := WF_alignPair_fst a b ha hb
-  have w2 := WF_alignPair_snd a b ha hb
+  have w2 := WF_alignPair_snd_cp a b ha hb
   have c1 := constRowsOf_toNumpy _ ca w1
     (toNumpy_of_den_C _ _ w1 (by rw [den_alignPair_fst a b ha hb, toNumpy_den a ca ha h1]))
   have c2 := constRowsOf_toNumpy _ cb w2
-    (toNumpy_of_den_C _ _ w2 (by rw [den_alignPair_snd a b ha hb, toNumpy_den b cb hb h2]))
+    (toNumpy_of_den_C _ _ w2 (by rw [den_alignPair_snd_cp a b ha hb, toNumpy_den b cb hb h2]))
   have hE : (alignPair a b).1.expos = (alignPair a b).2.expos := by
-    rw [expos_alignPair_fst, expos_alignPair_snd]
+    rw [expos_alignPair_fst, expos_alignPair_snd_cp]
   have hl : (colAt (alignPair a b).1 i).length = (colAt (alignPair a b).2 i).length := by
     have := congrArg List.length hE
     simpa [Poly.expos, colAt] using this
